@@ -50,6 +50,7 @@ def run(ctx):
                     ctx.case(common.canon(meta), True)
                     ctx.dist["style=" + op["style"]] += 1
                     one(ctx, client, I, op, args, mode, meta, env, reqs, metas)
+    defaults_and_untyped(ctx)
     answers = ctx.driver.ask(reqs)
     for ans, (meta, actual, spec) in zip(answers, metas):
         model = [SM.canon_info(x) for x in ans] if isinstance(ans, list) else ans
@@ -57,6 +58,102 @@ def run(ctx):
         ctx.compare("marshal-model-vs-reference", meta, spec, model)
     if metas:
         ctx.sample({"input": metas[0][0], "body": metas[0][1]})
+
+
+INT_RANGES = {"byte": 7, "short": 15, "int": 31, "long": 63, "integer": None, "decimal": None, "anyType": None}
+
+
+def nil_invariant(ctx, meta, env):
+    """XSD: an element marked xsi:nil='true' has no content."""
+    try:
+        root = xmlread.parse(env)
+    except xmlread.XmlError:
+        return
+    for n in xmlread.walk(root):
+        if n["attrs"].get((xmlread.XSI, "nil")) in ("true", "1") and (n["children"] or (n.get("text") or "") != ""):
+            ctx.fail("an element marked xsi:nil carries content", meta, [n["name"], n.get("text")], "an empty element")
+
+
+def defaults_and_untyped(ctx):
+    """Two shapes outside the family. (a) elements with a declared default and/or nillable, given None or a value:
+    value -> its text; None -> omitted when optional, else the default text, else xsi:nil when nillable, else an
+    empty element. (b) rpc/encoded parts and struct members of type xsd:anyType given Python ints of every
+    magnitude: the xsi:type suds picks must be one the text is a valid lexical form of."""
+    rng = ctx.rng
+    for _ in range(ctx.pick(25, 400)):
+        members = []
+        for i in range(rng.randint(2, 5)):
+            members.append({"name": "e%d" % i, "type": rng.choice(["string", "int"]), "nillable": rng.random() < 0.5,
+                            "min": rng.choice([0, 1, 1]), "default": rng.choice([None, None, "7"])})
+        decl = "".join('<xsd:element name="%s" type="xsd:%s"%s%s%s/>' % (
+            m["name"], m["type"], ' nillable="true"' if m["nillable"] else "", ' minOccurs="0"' if m["min"] == 0 else "",
+            ' default="%s"' % m["default"] if m["default"] else "") for m in members)
+        schema = '<xsd:element name="f"><xsd:complexType><xsd:sequence>%s</xsd:sequence></xsd:complexType></xsd:element>' % decl
+        client = wsdlkit.client(wsdlkit.wsdl_doc(schema, "f", None), nosend=True)
+        for _c in range(3):
+            kw, exp = {}, []
+            for m in members:
+                v = rng.choice([None, None, "x" if m["type"] == "string" else 12])
+                if rng.random() < 0.8:
+                    kw[m["name"]] = v
+                else:
+                    v = None        # not passed at all
+                if v is not None:
+                    exp.append([m["name"], str(v), False])
+                elif m["min"] == 0:
+                    pass
+                elif m["default"] is not None:
+                    exp.append([m["name"], m["default"], False])
+                else:
+                    exp.append([m["name"], "", m["nillable"]])
+            meta = {"stream": "defaults", "members": members, "kwargs": kw}
+            ctx.case(common.canon(meta), True)
+            ctx.dist["defaults:call"] += 1
+            try:
+                env = wsdlkit.envelope_bytes(client.service.f(**kw))
+                froot = xmlread.find1(xmlread.find1(xmlread.parse(env), "Body"), "f")
+                got = [[c["name"][1], c.get("text") or "", c["attrs"].get((xmlread.XSI, "nil")) in ("true", "1")]
+                       for c in froot["children"]]
+            except Exception as e:
+                ctx.fail("request construction failed", meta, repr(e), exp)
+                continue
+            if got != exp:
+                ctx.fail("None / default / nillable members are not written as the schema prescribes", meta, got, exp)
+            nil_invariant(ctx, meta, env)
+    # (b) untyped leaves in rpc/encoded
+    schema = ('<xsd:complexType name="S"><xsd:sequence><xsd:element name="v" type="xsd:anyType"/>'
+              '<xsd:element name="w" type="xsd:anyType" minOccurs="0"/></xsd:sequence></xsd:complexType>')
+    w = wsdlkit.wsdl_doc(schema, style="rpc", use="encoded",
+                         in_parts=[("a", "type", "xsd:anyType"), ("s", "type", "x:S")])
+    client = wsdlkit.client(w, nosend=True)
+    pool = [0, 1, -1, 127, 128, 2 ** 15, 2 ** 31 - 1, 2 ** 31, -2 ** 31 - 1, 2 ** 40, 2 ** 63 - 1, -2 ** 63]
+    for _ in range(ctx.pick(30, 300)):
+        a, v = rng.choice(pool), rng.choice(pool + [rng.randint(-2 ** 62, 2 ** 62)])
+        other = rng.choice([None, "text", True, 1.5])
+        meta = {"stream": "untyped-leaves", "a": a, "v": v, "w": repr(other)}
+        ctx.case(common.canon(meta), True)
+        ctx.dist["untyped:call"] += 1
+        try:
+            env = wsdlkit.envelope_bytes(client.service.f(a, {"v": v, "w": other}))
+            root = xmlread.parse(env)
+        except Exception as e:
+            ctx.fail("request construction failed", meta, repr(e), "a request")
+            continue
+        for n in xmlread.walk(root):
+            t = n["attrs"].get((xmlread.XSI, "type"))
+            if t is None or n["children"]:
+                continue
+            try:
+                q = xmlread.resolve_qname(n, t)
+            except xmlread.XmlError as e:
+                ctx.fail("xsi:type does not resolve", meta, str(e), "a declared prefix")
+                continue
+            text = n.get("text") or ""
+            if q[0] == xmlread.XSD and q[1] in INT_RANGES and text.lstrip("-").isdigit():
+                bits = INT_RANGES[q[1]]
+                if bits is not None and not (-2 ** bits <= int(text) < 2 ** bits):
+                    ctx.fail("the text of an untyped leaf is not a valid lexical form of the xsi:type given to it",
+                             meta, [n["name"][1], t, text], "a type whose value space holds the number")
 
 
 def one(ctx, client, I, op, args, mode, meta, env, reqs, metas):
@@ -69,6 +166,7 @@ def one(ctx, client, I, op, args, mode, meta, env, reqs, metas):
         ctx.fail("request does not conform to the schema", meta, mism[:6], "the message the WSDL prescribes",
                  envelope=envelope.decode("utf-8", "replace")[:3000])
         return
+    nil_invariant(ctx, meta, envelope)
     root, kids = K.body_children(envelope)
     actual = [SM.canon_node(k) for k in kids]
     spec = [SM.spec_to_info(s) for s in IF.spec_request(I, op, args)]
